@@ -1,7 +1,11 @@
 (* driver for C17: case line "cb0=<act>,.. ub0=<act>,.. <op> <op> ..." (see harness/loopharness.h;
    ub<k> = what callback k registers when it gets the bare UNBIND notification of a cancel).
-   model mode prints the model's observation (LoopDefs.run, fixed behaviour; with
-   VERIF_C17_PINNED=1 the model of the pinned code, LoopAsIs.a_run, FAULT = use after free);
+   model mode prints the model's observation: the heap-level twin LoopHeap.h_run of the repaired
+   code -- its log, FAULT if it touched a freed node, a trailing LEAK if a node was left after
+   destruction (proved never to happen: C17_heap_safe) -- cross-checked against the list model
+   LoopDefs.run; with VERIF_C17_SEEDED3=1 the heap model with the seeded order of
+   cancel_watch_in; with VERIF_C17_PINNED=1 the model of the pinned code, LoopAsIs.a_run
+   (FAULT = use after free);
    oracle mode reads "<case> | <obs>" and applies LoopSpec.spec_checkb. *)
 let zi = z_of_int
 let flags_of n = { f_first = n land 1 <> 0; f_unbind = n land 2 <> 0; f_destroy = n land 4 <> 0 }
@@ -64,6 +68,7 @@ let parse_obs s =
     (List.filter (fun x -> x <> "-") (split_ws s))
 let rec nat_of_int n = if n <= 0 then O else S (nat_of_int (n - 1))
 let pinned = (try Sys.getenv "VERIF_C17_PINNED" = "1" with Not_found -> false)
+let seeded3 = (try Sys.getenv "VERIF_C17_SEEDED3" = "1" with Not_found -> false)
 let model line =
   let (env, uenv, ops) = parse_case line in
   if pinned then
@@ -71,7 +76,12 @@ let model line =
     match a_run true env (nat_of_int 3000) ops with
     | Some l -> pr_obs l
     | None -> "FAULT"
-  else pr_obs (run false env uenv ops)
+  else
+    match h_run seeded3 env uenv ops with
+    | None -> "FAULT"
+    | Some (l, leakfree) ->
+      if (not seeded3) && l <> run false env uenv ops then "ERR heap model and list model disagree" else
+      if leakfree then pr_obs l else if l = [] then "LEAK" else pr_obs l ^ " LEAK"
 let oracle line =
   match String.index_opt line '|' with
   | Some i ->
